@@ -913,9 +913,14 @@ def accessors(p):
 
 
 def norm(e):
-    """tuples/lists -> lists, recursively (JSON-like)"""
+    """tuples/lists -> lists, recursively (JSON-like).  A text with blanks in it is a sentence generated by the library (the
+    harness's own texts are single tokens): its wording is nobody's property, so it is compared as one opaque token."""
     if isinstance(e, (tuple, list)):
         return [norm(x) for x in e]
+    if isinstance(e, dict):
+        return {k: norm(v) for k, v in e.items()}
+    if isinstance(e, str) and ' ' in e:
+        return 'LIBTEXT'
     return e
 
 
